@@ -65,6 +65,9 @@ def ctor_sig(pid, st, kind):
     return f"{pid}|{kind}|construct|{a['cls']}|" + ','.join(f'{f}={t}' for f, t in sorted(args.items()))
 
 
+_EQV = [0]
+
+
 def replay_state(ctx, cat, cls, st, pid='C17'):
     """One state = one implementation test.  Returns True if it agreed."""
     nslots = len(st['heap'])
@@ -75,7 +78,16 @@ def replay_state(ctx, cat, cls, st, pid='C17'):
         ctx.violation(f'{pid}|materialise|{type(ex).__name__}', f'could not build the model pre-state: {ex!r}', {'pre': st['pre']})
         return False
     before_h, before_d = w.project(nslots, None)
-    out = w.apply(st['act'])
+    # every fourth constructor / assignment state runs while the session has unit equivalencies enabled (astropy's global
+    # configuration): whether a value is in a parameter's domain does not depend on them - a pure number or a length in pixels
+    # is not an angle then either
+    _EQV[0] += 1
+    if st['act']['a'] in ('construct', 'assign', 'copywith') and _EQV[0] % 4 == 0:
+        import astropy.units as u
+        with u.set_enabled_equivalencies(u.dimensionless_angles() + u.pixel_scale(0.1 * u.arcsec / u.pix) + u.plate_scale(2 * u.arcsec / u.mm)):
+            out = w.apply(st['act'])
+    else:
+        out = w.apply(st['act'])
     heap, dicts = w.project(nslots, None)
     mh, md = objs.model_view(st['heap'], st['dicts'])
     case = {'pre': st['pre'], 'act': st['act'], 'model_out': st['out'], 'real_out': out,
